@@ -27,6 +27,7 @@ def main():
     checks = [pid]
     tier = "quick"
     only = None
+    label = ""
     args = sys.argv[3:]
     while args:
         a = args.pop(0)
@@ -36,11 +37,13 @@ def main():
             tier = args.pop(0)
         elif a == "--only":
             only = args.pop(0).split(",")
+        elif a == "--label":  # e.g. r3 -> seeded/<ID>-r3-<k>
+            label = args.pop(0) + "-"
     ks = sorted(int(m.group(1)) for p in src.glob("patch_*.diff") if (m := re.match(r"patch_(\d+)\.diff", p.name)))
     for k in ks:
         if only and str(k) not in only:
             continue
-        dest = ROOT / "seeded" / f"{pid}-{k}"
+        dest = ROOT / "seeded" / f"{pid}-{label}{k}"
         dest.mkdir(parents=True, exist_ok=True)
         shutil.copy(src / f"patch_{k}.diff", dest / "patch.diff")
         if (src / f"demo_{k}.py").exists():
